@@ -1,5 +1,6 @@
 //! Per-property simulations and their batch configurations.
 
+pub mod c14;
 pub mod c16;
 pub mod c18;
 pub mod c19;
@@ -64,6 +65,23 @@ pub fn batch_cfg(prop: &str, tier: Tier, seed: u64) -> BatchCfg {
             cfg.components = json!({
                 "real": ["wac-parser (lexer, parser, printer, resolution)", "wac-graph (graph API, encoder)", "wac-types (package decoding, aggregator, checker)", "wac-resolver (packages discovery, fs resolver at load time)", "wasmparser / wasm-encoder / wit-parser / wit-component", "std HashMap/HashSet (real SipHash, keys chosen by the simulator)"],
                 "stub": ["kernel getrandom (interposed: keys are a function of the simulated process's hash seed)", "process boundary (a simulated process is a fresh OS thread, joined before the next one starts)"],
+            });
+        }
+        "C14" => {
+            cfg.runs = c14::sampled_runs(tier) + c14::enum_runs(tier);
+            cfg.chunk = if quick { 500 } else { 5000 };
+            cfg.sample_every = cfg.runs / 5;
+            cfg.level = "fault_enumeration".into();
+            cfg.batch_wall_s = if quick { 400 } else { 5400 };
+            cfg.rule = format!("Two kinds of runs. (a) Sampled: {} seeded runs; each draws a corpus state (a `wac compose` scenario over a generated or shipped document with its dependency tree on a simulator-owned disk, or a shape input whose nesting/size parameter is drawn from 8..60000) and a sequence of 1-4 stored-byte faults (truncate, bitflip, zero_range, dup_range, delete, empty_file, random_bytes, dir_in_place_of_file, core_module_in_place_of_component, splice_from_other_file, swap_files, invalid_utf8) on the source and the dependency files, then runs read -> parse -> print -> discover -> fs lookup -> decode every stored package -> resolve -> encode (both dependency modes) in a simulated process with an 8 MiB stack under a supervisor that attributes aborts, stack overflows and hangs. (b) Enumeration: single faults truncate@k and bitflip@k.b at every offset of every corpus file <= 4096 bytes ({} points over shipped .wac sources, their dependency files and the component library; thorough visits all of them, quick a seeded stride of {}). Invariants: no panic / abort / overflow / hang; every span of the returned tree and of every diagnostic within the source on char boundaries; the diagnostic renders. A run is non-trivial if at least one fault fired; distinct = distinct SHA-256 digests of the run's event log.", c14::sampled_runs(tier), c14::enum_total(), c14::enum_runs(tier));
+            cfg.assumptions = vec![
+                "Only the fault-sequence half of the property is claimed (stored bytes going bad under the pipeline); the 'arbitrary Unicode text' half is input fuzzing and is not presented as simulation. The generated documents and shape inputs are workload for the faults to land on.".into(),
+                "A faulted input may be another valid program: equality with the un-faulted result is not demanded, and whether an Ok output validates is C01's subject (recorded as a side observation only).".into(),
+                "Stack size 8 MiB (the main thread `wac` runs on); a hang is 60 s without progress, confirmed by an isolated re-run.".into(),
+            ];
+            cfg.components = json!({
+                "real": ["wac_parser::Document::{parse,resolve}, DocumentPrinter, Resolution::encode", "wac_resolver::{packages, FileSystemPackageResolver} on a tmpfs scratch tree", "wac_types::Package::from_bytes", "wac-graph encoder", "wasmparser / wit-parser / wat", "miette rendering"],
+                "stub": ["nothing is stubbed; stored bytes and the directory layout are decided by the simulator"],
             });
         }
         "C18" => {
